@@ -32,7 +32,7 @@ ASSUMPTIONS = [
 ]
 
 REJECT_KINDS = ["other", "samename-atoms", "samename-count", "returned", "none", "str", "ndarray", "residue", "label-twin",
-                "case-twin"]
+                "case-twin", "renamed", "shorter", "longer"]
 
 
 @st.composite
@@ -243,6 +243,30 @@ def check(case):
                 if nm.swapcase() == nm:
                     continue
                 res[-1][2][-1] = nm.swapcase()
+                sp["residues"] = res
+                bad = build_molecule(sp)
+            elif what in ("renamed", "shorter", "longer"):
+                # another species whose atoms coincide with the reference's over their common length: the same beads under
+                # another molecule name, a homologue with one atom less / one atom more at the end
+                sp = dict(rspec, coords=[list(c) for c in rspec["coords"]])
+                res = [[r[0], r[1], list(r[2])] for r in rspec["residues"]]
+                nat = len(rpos)
+                if what == "renamed":
+                    sp["name"] = "OTHER"
+                elif what == "shorter":
+                    if nat < 2 or len(res[-1][2]) < 2:
+                        continue
+                    res[-1][2].pop()
+                    sp["edges"] = [e for e in rspec["edges"] if nat - 1 not in e]
+                    sp["coords"] = sp["coords"][:-1]
+                    if "vel" in sp and sp["vel"] is not None:
+                        sp["vel"] = sp["vel"][:-1]
+                else:
+                    res[-1][2].append("X%d" % (nat + 1))
+                    sp["edges"] = [list(e) for e in rspec["edges"]] + [[nat - 1, nat]]
+                    sp["coords"] = sp["coords"] + [[c + 0.2 for c in sp["coords"][-1]]]
+                    if "vel" in sp and sp["vel"] is not None:
+                        sp["vel"] = list(sp["vel"]) + [sp["vel"][-1]]
                 sp["residues"] = res
                 bad = build_molecule(sp)
             elif what == "samename-count":
